@@ -22,9 +22,10 @@ def S(i):
 X = {"n": "X"}
 
 
-def C(site, arg, kw=NULL, star=False, dstar=False, poskw=False):
+def C(site, arg, kw=NULL, star=False, dstar=False, poskw=False, asvalue=False):
     # poskw: the positional parameter is given by keyword (x=<arg>)
-    return {"n": "C", "site": site, "arg": arg, "kw": kw, "star": star, "dstar": dstar, "poskw": poskw}
+    # asvalue: recurse / the own name used as a value and called elsewhere: list(map(recurse, [<arg>]))[0]
+    return {"n": "C", "site": site, "arg": arg, "kw": kw, "star": star, "dstar": dstar, "poskw": poskw, "asvalue": asvalue}
 
 
 def sites(arg_leaves, kw_leaves, which=("R", "N", "S")):
@@ -34,6 +35,8 @@ def sites(arg_leaves, kw_leaves, which=("R", "N", "S")):
             out.append(C(s, a))
             out.append(C(s, a, star=True))
             out.append(C(s, a, poskw=True))
+            if s != "N":
+                out.append(C(s, a, asvalue=True))
             for k in kw_leaves:
                 out.append(C(s, a, kw=k))
                 out.append(C(s, a, kw=k, dstar=True))
@@ -98,7 +101,7 @@ def enumerate_programs(tier, seed):
     out = []
     for p in progs:
         k = repr(p)
-        if k not in seen and not has_x_free(p) and valid(p):
+        if k not in seen and not has_x_free(p) and valid(p) and k.count("'n': 'CX'") <= 1:   # (Eval does not thread the rebinding of x from one CX to the next)
             seen.add(k)
             out.append(p)
     if tier == "quick":
@@ -153,6 +156,8 @@ class Renderer:
             site = "N" if self.only_next else t["site"]
             callee = {"R": "recurse", "N": "call_next", "S": self.fname}[site]
             a = self.r(t["arg"])
+            if t.get("asvalue") and site != "N":
+                return f"list(map({callee}, [{a}]))[0]"
             parts = [f"*[{a}]" if t["star"] else (f"x={a}" if t.get("poskw") else a)]
             if t["kw"]["n"] != "null":
                 k = self.r(t["kw"])
